@@ -177,6 +177,7 @@ def run(ctx, ck):
     n_rows = 0
     n_polar = 0
     row_obs = {}
+    pol_rows = []
     for f in sorted(writers, key=lambda x: x.qual):
         if f.name.startswith('_'):
             continue        # (private helpers are looked through from the writers that call them)
@@ -210,6 +211,11 @@ def run(ctx, ck):
                     ok = mag == ph
                     key = '%s|polar(%s)' % (f.qual, ','.join(sorted(mag | ph))[:80])
                     why = 'magnitude of %s; phase of %s' % (sorted(mag), sorted(ph))
+                    # both polarisations of one row are printed from the same expression (theta <-> phi)
+                    if any('theta' in t_ for t_ in mag) and any('phi' in t_ for t_ in mag):
+                        swap = lambda t_: t_.replace('theta', '\0').replace('phi', 'theta').replace('\0', 'phi')
+                        one_sided = sorted(t_ for t_ in mag if swap(t_) not in mag)
+                        pol_rows.append((f, st_, one_sided, sorted(mag)))
                     prev = row_obs.get(key)
                     if prev is None or (prev[0] and not ok):
                         row_obs[key] = (ok, f.loc(st_), why, 'polar')
@@ -219,6 +225,17 @@ def run(ctx, ck):
             n_rows += 1
         else:
             n_polar += 1
+    ck.rule('R-SIB.polarisations-alike', 'the theta and phi columns of one row are the same expression of their field (same scaling)')
+    seen_pol = set()
+    for f_, st_, one_sided, all_ in pol_rows:
+        k_ = '%s|%s' % (f_.qual, ','.join(all_)[:70])
+        if k_ in seen_pol:
+            continue
+        seen_pol.add(k_)
+        ck.ob('R-SIB.polarisations-alike', k_, not one_sided, f_.loc(st_),
+              'both polarisations are printed from the same expression: %s' % all_ if not one_sided else
+              'the two polarisations of one row are scaled differently: %s has no counterpart for the other polarisation '
+              'among %s' % (one_sided, all_))
     ck.floor('complex rows (real, imag, magnitude, phase)', n_rows, 3)
     ck.floor('polar rows (magnitude, phase per polarisation)', n_polar, 1)
 
